@@ -40,6 +40,9 @@ func (s *Statement) isNull(f *File) bool {
 		return true
 	}
 	for _, c := range *s {
+		if c == nil {
+			continue
+		}
 		if !c.isNull(f) {
 			return false
 		}
